@@ -826,9 +826,26 @@ def make_builtins(I):
             return r
         return tuple(iterate(I, x))
 
+    def set_enumeration(x):
+        """contract of iterating a set of ints: an enumeration of its elements without repetition in an ARBITRARY order
+        (CPython iterates in hash-table order, which the language does not specify)"""
+        n = card(I, x)
+        arr = z3.Array(I.path.fresh_name("setiter"), IntS, IntS)
+        k, j, v = (z3.Int(I.path.fresh_name(s)) for s in ("k_si", "j_si", "v_si"))
+        rng = lambda t: z3.And(t >= 0, t < n)
+        I.path.assume(z3.ForAll([k], z3.Implies(rng(k), z3.Select(x.arr, arr[k])), patterns=[arr[k]]))
+        I.path.assume(z3.ForAll([k, j], z3.Implies(z3.And(rng(k), rng(j), k != j), arr[k] != arr[j]), patterns=[z3.MultiPattern(arr[k], arr[j])]))
+        I.path.assume(z3.ForAll([v], z3.Implies(z3.Select(x.arr, v), z3.Exists([k], z3.And(rng(k), arr[k] == v)))))
+        I.path.notes.add("iteration over a set of ints: trusted contract (enumeration without repetition, arbitrary order)")
+        r = SymSeq(n, lambda i, arr=arr: arr[to_z3(i)], "list")
+        r.origin_set = x.arr
+        return r
+
     def b_list(x=()):
         if isinstance(x, IterVal):
             x = x.seq
+        if isinstance(x, SymSet):
+            return set_enumeration(x)
         if isinstance(x, SymSeq):
             r = SymSeq(x.length, x.elem, "list", x.name)
             if hasattr(x, "origin_set"):
